@@ -172,6 +172,11 @@ def check(ctx):
     listed = {n.id for r in returns(dor) for n in ast.walk(r.value) if isinstance(n, ast.Name)}
     need = {"MapOverlap", "MapOverlapAlign", "CreateOverlappingPartitions", "CumulativeAggregations", "CumulativeBlockwise", "CumulativeFinalize", "RollingReduction", "RollingAggregation"}
     ctx.ob("TAB.neighbour-dependent.classes", dor, f"_depends_on_other_rows covers the abstract and the lowered forms {sorted(need)}", need <= listed, "" if need <= listed else f"missing: {sorted(need - listed)} -- after lowering the merge happens anyway")
+    # ---------------- value-preserving casts (filters may pass below them): only TO a float at least as wide
+    cpv = (ex_ if "ex_" in dir() else ctx.model.module("dask/dataframe/dask_expr/_expr.py")).func("AsType._cast_preserves_values")
+    txt_ = unparse(cpv)
+    ok = "a.kind in 'biuf'" in txt_ and "b.kind == 'f'" in txt_ and "b.itemsize >= a.itemsize" in txt_
+    ctx.ob("TAB.astype.value-preserving", cpv, "a cast preserves comparisons iff source kind in biuf, target kind == 'f', target at least as wide", ok, "" if ok else "float -> int truncates: a filter evaluated below the cast sees the un-truncated values and keeps different rows")
 
 
 VARIANTS = [
